@@ -29,6 +29,9 @@ import IbicusModel.Lemmas.C10Isimip
 import IbicusModel.Lemmas.C10Lift
 import IbicusModel.Lemmas.C10Precip
 import IbicusModel.Lemmas.C10Rsds
+import IbicusModel.Lemmas.C10Session
+import IbicusModel.Lemmas.GenIsimipVars
+import IbicusModel.Props.C07
 
 namespace Props.C10
 open Model.Isimip Model.Stats Model.IsimipFreq Model.Family Model.Debiasers Model.Precip Lemmas.C10 Lemmas.Stats
@@ -292,6 +295,50 @@ theorem rsds_location_nonneg (c : Cfg) (fam : IsiFamily) (orc : List Nat → Ora
         exact step8Buffer_nonneg c buf out cy doyF hbufnn
           (step1_cycle_nonneg c obs H F o1 hh1 f1 cy doyO doyH doyF hO hH hF h1) h
 
+/-- … the same in month mode (`running_window_mode = False`) -/
+theorem rsds_location_months_nonneg (c : Cfg) (fam : IsiFamily) (orc : List Nat → Oracles) (drw : List Nat → Draws)
+    (mO mH mF doyO doyH doyF yearsO yearsH yearsF : List Int) (obs H F : List Rat) (out : List (Option Rat))
+    (hord : CfgOrdered c) (hlb : c.lowerBound = .fin 0) (hd : c.detrending = false)
+    (hO : ∀ v ∈ obs, 0 ≤ v) (hH : ∀ v ∈ H, 0 ≤ v) (hF : ∀ v ∈ F, 0 ≤ v)
+    (hwet : ∀ o1 h1 f1 cyc, step1 c obs H F doyO doyH doyF = .ok (o1, h1, f1, cyc) →
+      ∀ m ∈ Py.arange1 1 13,
+      WetWindow c (orc (Py.whereTrue (mF.map (fun x => decide (x = m))))) (drw (Py.whereTrue (mF.map (fun x => decide (x = m)))))
+        (Model.Skeleton.take o1 (Py.whereTrue (mO.map (fun x => decide (x = m)))))
+        (Model.Skeleton.take h1 (Py.whereTrue (mH.map (fun x => decide (x = m)))))
+        (Model.Skeleton.take f1 (Py.whereTrue (mF.map (fun x => decide (x = m))))))
+    (hfam : c.nonparametricQm = true ∨ (RangeLaw fam ∧ ParamOk c))
+    (hexpit : c.eventLikelihoodAdjustment = true → ∀ idx x, 0 < (orc idx).expit x ∧ (orc idx).expit x < 1)
+    (h : applyLocationMonths c fam orc drw mO mH mF doyO doyH doyF yearsO yearsH yearsF obs H F = .ok out) :
+    ∀ v, some v ∈ out → 0 ≤ v := by
+  unfold applyLocationMonths at h
+  simp only [bind, Except.bind] at h
+  cases h1 : step1 c obs H F doyO doyH doyF with
+  | error e => rw [h1] at h; exact absurd h (by simp)
+  | ok r1 =>
+    obtain ⟨o1, hh1, f1, cyc⟩ := r1
+    rw [h1] at h
+    dsimp only at h
+    split at h
+    · exact absurd h (by simp)
+    · rename_i buf hbuf
+      have hbufnn : ∀ v, some v ∈ buf → 0 ≤ v := by
+        refine Lemmas.C10.applyLocationMonths_forall (fun v => 0 ≤ v) _ mO mH mF o1 hh1 f1 _ ?_ hbuf
+        intro ctr hctr r hr v hv
+        have hg := (applyOnWindow_good c fam _ _ _ _ _ r _ _ _ hd (hwet o1 hh1 f1 cyc h1 ctr hctr) hfam
+          (fun he => hexpit he _) hr v hv).inBounds_noGap hord
+        have := hg.1.1
+        rw [hlb] at this
+        simpa [ExtRat.geOf] using this
+      cases cyc with
+      | none =>
+        unfold step8Buffer at h
+        split at h
+        · exact absurd h (by simp)
+        · injection h with h; subst h; exact hbufnn
+      | some cy =>
+        exact step8Buffer_nonneg c buf out cy doyF hbufnn
+          (step1_cycle_nonneg c obs H F o1 hh1 f1 cy doyO doyH doyF hO hH hF h1) h
+
 /-! ## Precipitation: non-negative, defined, exact zeros -/
 
 /-- **LinearScaling, multiplicative** (`pr`): `x · mean(obs)/mean(H)`; the divisor is positive (never NaN) under
@@ -462,5 +509,273 @@ theorem qdm_relative_nonneg {P} (Fam : Family P) (E : List Rat → Rat → Rat) 
 -- non-vacuity: relative QDM with the rational scale family, censoring threshold 1: sub-threshold values become 0
 example : qdmSteps ratOdds.toFamily .relative .step (1 / 8) (some 1) [0, 1 / 2, 4, 2] 1 2 = [0, 0, 2, 1] := by
   decide +kernel
+
+/-! ## Round 4: the statements the oracle checks end to end -/
+
+section Round4
+open Model.IsimipVars Model.IsimipSession
+
+/-- `step6_good` under the guard step 6 really needs: one pseudo-future observation strictly between the thresholds
+    (`Wet` asks for two in every sample; this is the sharp form) -/
+theorem step6_good_of_pseudo (c : Cfg) (fam : IsiFamily) (o : Oracles) (obs obsFut H F out : List Rat)
+    (hp : 0 < (valuesBetween c obsFut).length)
+    (hfam : c.nonparametricQm = true ∨ (RangeLaw fam ∧ ParamOk c))
+    (hexpit : c.eventLikelihoodAdjustment = true → ∀ x, 0 < o.expit x ∧ o.expit x < 1)
+    (hord : CfgOrdered c)
+    (h : step6 c fam o obs obsFut H F = .ok out) : out.length = F.length ∧ ∀ v ∈ out, InBounds c v ∧ NoGap c v :=
+  ⟨(Lemmas.C10.step6_good c fam o obs obsFut H F out hp hfam hexpit h).1,
+   fun v hv => ((Lemmas.C10.step6_good c fam o obs obsFut H F out hp hfam hexpit h).2 v hv).inBounds_noGap hord⟩
+
+/-- **Every bounded variable of `isimip3_variable_settings`** (the table is tied to the code by tier A:
+    `Lemmas.GenIsimipVars.bounded_variables_eq` / `_complete`) satisfies every configuration guard of the C10
+    theorems: ordered bounds and thresholds, no detrending, non-parametric step 6 or a parametric one whose fixed fit
+    arguments cover every finite threshold, finite-or-absent thresholds, a finite bound wherever one can be written, no
+    event likelihood adjustment. -/
+theorem bounded_variables_wellformed : ∀ r ∈ boundedVariables,
+    CfgOrdered r.2 ∧ r.2.detrending = false ∧ (r.2.nonparametricQm = true ∨ ParamOk r.2) ∧ ThrFinite r.2 ∧
+    r.2.eventLikelihoodAdjustment = false ∧
+    (r.2.hasLowerThreshold = false ∨ ∃ q, r.2.lowerBound = .fin q) ∧ (r.2.hasUpperThreshold = false ∨ ∃ q, r.2.upperBound = .fin q) := by
+  intro r hr
+  have key : ∀ r ∈ boundedVariables, CfgOrdered r.2 ∧ r.2.detrending = false ∧ (r.2.nonparametricQm = true ∨ ParamOk r.2) ∧
+      ThrFinite r.2 ∧ r.2.eventLikelihoodAdjustment = false ∧
+      (r.2.hasLowerThreshold = false ∨ (match r.2.lowerBound with | .fin _ => true | _ => false) = true) ∧
+      (r.2.hasUpperThreshold = false ∨ (match r.2.upperBound with | .fin _ => true | _ => false) = true) := by
+    decide +kernel
+  obtain ⟨h1, h2, h3, h4, h5, h6, h7⟩ := key r hr
+  refine ⟨h1, h2, h3, h4, h5, ?_, ?_⟩
+  · rcases h6 with h | h
+    · exact Or.inl h
+    · right; cases hb : r.2.lowerBound <;> rw [hb] at h <;> first | exact ⟨_, rfl⟩ | exact absurd h (by simp)
+  · rcases h7 with h | h
+    · exact Or.inl h
+    · right; cases hb : r.2.upperBound <;> rw [hb] at h <;> first | exact ⟨_, rfl⟩ | exact absurd h (by simp)
+
+/-- **the no-gap statement for every bounded variable**, per window: with the settings `from_variable` gives hurs, pr,
+    prsnratio, rsds, sfcwind, tasrange, tasskew, every value `_apply_on_window` returns lies in `[lb, ub]` and not strictly
+    between a bound and its threshold.  Only data guards remain: `WetWindow`, and the family's range law for the three
+    variables whose step 6 is parametric (pr, sfcwind, tasrange).  (rsds: the statement is about the scaled variable;
+    `rsds_location_nonneg` is the statement about the output.) -/
+theorem bounded_variable_window_in_bounds_no_gap (name : String) (c : Cfg) (hv : (name, c) ∈ boundedVariables)
+    (fam : IsiFamily) (hlaw : c.nonparametricQm = false → RangeLaw fam) (o : Oracles) (d : Draws)
+    (obs H F out : List Rat) (yO yH yF : List Int) (hwet : WetWindow c o d obs H F)
+    (h : applyOnWindow c fam o d obs H F yO yH yF = .ok out) : ∀ v ∈ out, InBounds c v ∧ NoGap c v := by
+  obtain ⟨h1, h2, h3, -, h5, -, -⟩ := bounded_variables_wellformed (name, c) hv
+  refine window_in_bounds_no_gap c fam o d obs H F out yO yH yF h1 h2 hwet ?_ (fun he => ?_) h
+  · rcases h3 with h3 | h3
+    · exact Or.inl h3
+    · by_cases hn : c.nonparametricQm = true
+      · exact Or.inl hn
+      · exact Or.inr ⟨hlaw (by simpa using hn), h3⟩
+  · rw [h5] at he; exact absurd he (by simp)
+
+/-- … and step 6 returns for each of them on every input (non-vacuity of the guarded statements for all seven) -/
+theorem bounded_variable_step6_total (name : String) (c : Cfg) (hv : (name, c) ∈ boundedVariables) (fam : IsiFamily)
+    (o : Oracles) (obs obsFut H F : List Rat) : ∃ out, step6 c fam o obs obsFut H F = .ok out := by
+  obtain ⟨-, -, -, h4, h5, h6, h7⟩ := bounded_variables_wellformed (name, c) hv
+  exact step6_total c fam o obs obsFut H F h6 h7 h4 h5
+
+example : boundedVariables.map (·.1) = ["hurs", "pr", "prsnratio", "rsds", "sfcwind", "tasrange", "tasskew"] := by decide +kernel
+
+/-- **instance reuse (apply – assign – apply): every apply is judged by the settings current at that apply.**
+    For every sequence of attribute re-assignments and applies on one object, each recorded apply is the window pipeline
+    at the settings recorded with it (`run_result`), those settings are the construction settings with all earlier
+    re-assignments applied in order (`session_settings`), and its output obeys the bounds / no-gap statement *of those
+    settings*.  The specification has no cache; the tie to the code is the correspondence on real apply – assign – apply
+    sequences (`assigncfg` + `window` at the object's current attributes). -/
+theorem session_each_apply_judged_by_current_settings (c0 : Cfg) (f0 : IsiFamily) (ops : List Op) (a : Applied)
+    (ha : a ∈ run c0 f0 ops) (out : List Rat) (hres : a.result = .ok out)
+    (hord : CfgOrdered a.cfg) (hd : a.cfg.detrending = false)
+    (hwet : WetWindow a.cfg a.call.o a.call.d a.call.obs a.call.H a.call.F)
+    (hfam : a.cfg.nonparametricQm = true ∨ (RangeLaw a.fam ∧ ParamOk a.cfg))
+    (hexpit : a.cfg.eventLikelihoodAdjustment = true → ∀ x, 0 < a.call.o.expit x ∧ a.call.o.expit x < 1) :
+    ∀ v ∈ out, InBounds a.cfg v ∧ NoGap a.cfg v := by
+  rw [run_result ops c0 f0 a ha] at hres
+  exact window_in_bounds_no_gap a.cfg a.fam a.call.o a.call.d a.call.obs a.call.H a.call.F out _ _ _ hord hd hwet hfam hexpit hres
+
+theorem session_settings (c : Cfg) (f : IsiFamily) (as : List Assign) (x : Call) :
+    (run c f (as.map Op.assign ++ [Op.apply x])).map (·.cfg) = [cfgAfter c as] :=
+  run_assigns_then_apply c f as x
+
+-- a re-assignment changes the verdict: 1/4 is a legal pr value for the threshold 1/8 and lies in the gap for 1/2, so
+-- judging the second apply by the first apply's settings (a stale cache) is a different, wrong statement
+example : NoGap prCfg (1 / 4) ∧ ¬ NoGap (({ lowerThreshold := some (.fin (1 / 2)) } : Assign).on prCfg) (1 / 4) := by
+  decide +kernel
+example : cfgAfter prCfg [{ lowerThreshold := some (.fin (1 / 2)) }, { nonparametricQm := some true }] =
+    { prCfg with lowerThreshold := .fin (1 / 2), nonparametricQm := true } := by decide +kernel
+
+/-- `out = 0 ∨ out ≥ lower_threshold` is the bounds + no-gap statement for a lower bound 0 -/
+theorem zero_or_ge_of_valid (c : Cfg) (t v : Rat) (hlb : c.lowerBound = .fin 0) (hlt : c.lowerThreshold = .fin t)
+    (hb : InBounds c v) (hg : NoGap c v) : v = 0 ∨ t ≤ v := by
+  have h0 := hb.1
+  have hgap := hg.1
+  rw [hlb] at h0 hgap
+  rw [hlt] at hgap
+  simp only [ExtRat.geOf, ExtRat.gtOf, ExtRat.ltOf, decide_eq_true_eq, ge_iff_le, gt_iff_lt, not_and, not_lt] at h0 hgap
+  rcases eq_or_lt_of_le h0 with h | h
+  · exact Or.inl h.symm
+  · exact Or.inr (hgap h)
+
+/-- **never NaN, every day** (running windows): every time step of the result is assigned — also day 366 — and the
+    assigned value is inside the bounds and in no gap.  (`none` models a never-written entry: NaN under the hook.) -/
+theorem location_rw_every_day_valid (c : Cfg) (fam : IsiFamily) (orc : List Nat → Oracles) (drw : List Nat → Draws)
+    (L S hS : Int) (doyO doyH doyF yearsO yearsH yearsF : List Int) (obs H F : List Rat) (out : List (Option Rat))
+    (hord : CfgOrdered c) (hd : c.detrending = false) (hs : c.scaleByAnnualCycle = false)
+    (hodd : S = 2 * hS + 1) (hh : 0 ≤ hS) (hlen : doyF.length = F.length) (hr : ∀ d ∈ doyF, 0 ≤ d ∧ d ≤ 366)
+    (hwet : ∀ ctr ∈ Model.Windows.useCenters S doyF,
+      WetWindow c (orc (Model.Windows.idxWindow L doyF ctr)) (drw (Model.Windows.idxWindow L doyF ctr))
+        (Model.Skeleton.take obs (Model.Windows.idxWindow L doyO ctr)) (Model.Skeleton.take H (Model.Windows.idxWindow L doyH ctr))
+        (Model.Skeleton.take F (Model.Windows.idxWindow L doyF ctr)))
+    (hfam : c.nonparametricQm = true ∨ (RangeLaw fam ∧ ParamOk c))
+    (hexpit : c.eventLikelihoodAdjustment = true → ∀ idx x, 0 < (orc idx).expit x ∧ (orc idx).expit x < 1)
+    (h : applyLocationRW c fam orc drw L S doyO doyH doyF yearsO yearsH yearsF obs H F = .ok out) :
+    out.length = F.length ∧ ∀ i, i < F.length → ∃ v, out[i]? = some (some v) ∧ InBounds c v ∧ NoGap c v := by
+  have hval := location_rw_in_bounds_no_gap c fam orc drw L S doyO doyH doyF yearsO yearsH yearsF obs H F out hord hd hs hwet
+    hfam hexpit h
+  unfold applyLocationRW step1 step8Buffer at h
+  simp only [hs, Bool.false_eq_true, if_false, bind, Except.bind, pure, Except.pure] at h
+  split at h
+  · exact absurd h (by simp)
+  · rename_i buf hbuf
+    injection h with h
+    subst h
+    obtain ⟨h1, h2⟩ := Props.C07.applyLocationRW_all_some _ L S hS doyO doyH doyF obs H F _ hodd hh hlen hr hbuf
+    refine ⟨h1, fun i hi => ?_⟩
+    obtain ⟨v, hv⟩ := h2 i hi
+    exact ⟨v, hv, hval v (List.mem_of_getElem? hv)⟩
+
+/-- … and in month mode -/
+theorem location_months_every_day_valid (c : Cfg) (fam : IsiFamily) (orc : List Nat → Oracles) (drw : List Nat → Draws)
+    (mO mH mF doyO doyH doyF yearsO yearsH yearsF : List Int) (obs H F : List Rat) (out : List (Option Rat))
+    (hord : CfgOrdered c) (hd : c.detrending = false) (hs : c.scaleByAnnualCycle = false)
+    (hlen : mF.length = F.length) (hr : ∀ m ∈ mF, 1 ≤ m ∧ m ≤ 12)
+    (hwet : ∀ m ∈ Py.arange1 1 13,
+      WetWindow c (orc (Py.whereTrue (mF.map (fun x => decide (x = m))))) (drw (Py.whereTrue (mF.map (fun x => decide (x = m)))))
+        (Model.Skeleton.take obs (Py.whereTrue (mO.map (fun x => decide (x = m)))))
+        (Model.Skeleton.take H (Py.whereTrue (mH.map (fun x => decide (x = m)))))
+        (Model.Skeleton.take F (Py.whereTrue (mF.map (fun x => decide (x = m))))))
+    (hfam : c.nonparametricQm = true ∨ (RangeLaw fam ∧ ParamOk c))
+    (hexpit : c.eventLikelihoodAdjustment = true → ∀ idx x, 0 < (orc idx).expit x ∧ (orc idx).expit x < 1)
+    (h : applyLocationMonths c fam orc drw mO mH mF doyO doyH doyF yearsO yearsH yearsF obs H F = .ok out) :
+    out.length = F.length ∧ ∀ i, i < F.length → ∃ v, out[i]? = some (some v) ∧ InBounds c v ∧ NoGap c v := by
+  have hval := location_months_in_bounds_no_gap c fam orc drw mO mH mF doyO doyH doyF yearsO yearsH yearsF obs H F out hord hd hs
+    hwet hfam hexpit h
+  unfold applyLocationMonths step1 step8Buffer at h
+  simp only [hs, Bool.false_eq_true, if_false, bind, Except.bind, pure, Except.pure] at h
+  split at h
+  · exact absurd h (by simp)
+  · rename_i buf hbuf
+    injection h with h
+    subst h
+    obtain ⟨h1, h2⟩ := Props.C07.applyLocationMonths_all_some _ mO mH mF obs H F _ hlen hr hbuf
+    refine ⟨h1, fun i hi => ?_⟩
+    obtain ⟨v, hv⟩ := h2 i hi
+    exact ⟨v, hv, hval v (List.mem_of_getElem? hv)⟩
+
+/-- **ISIMIP pr at a location: every day is assigned and is `0` or `≥ lower_threshold`** -/
+theorem location_rw_pr_zero_or_ge (c : Cfg) (fam : IsiFamily) (orc : List Nat → Oracles) (drw : List Nat → Draws)
+    (L S hS : Int) (doyO doyH doyF yearsO yearsH yearsF : List Int) (obs H F : List Rat) (out : List (Option Rat)) (t : Rat)
+    (hlb : c.lowerBound = .fin 0) (hlt : c.lowerThreshold = .fin t)
+    (hord : CfgOrdered c) (hd : c.detrending = false) (hs : c.scaleByAnnualCycle = false)
+    (hodd : S = 2 * hS + 1) (hh : 0 ≤ hS) (hlen : doyF.length = F.length) (hr : ∀ d ∈ doyF, 0 ≤ d ∧ d ≤ 366)
+    (hwet : ∀ ctr ∈ Model.Windows.useCenters S doyF,
+      WetWindow c (orc (Model.Windows.idxWindow L doyF ctr)) (drw (Model.Windows.idxWindow L doyF ctr))
+        (Model.Skeleton.take obs (Model.Windows.idxWindow L doyO ctr)) (Model.Skeleton.take H (Model.Windows.idxWindow L doyH ctr))
+        (Model.Skeleton.take F (Model.Windows.idxWindow L doyF ctr)))
+    (hfam : c.nonparametricQm = true ∨ (RangeLaw fam ∧ ParamOk c))
+    (hexpit : c.eventLikelihoodAdjustment = true → ∀ idx x, 0 < (orc idx).expit x ∧ (orc idx).expit x < 1)
+    (h : applyLocationRW c fam orc drw L S doyO doyH doyF yearsO yearsH yearsF obs H F = .ok out) :
+    ∀ i, i < F.length → ∃ v, out[i]? = some (some v) ∧ (v = 0 ∨ t ≤ v) := by
+  intro i hi
+  obtain ⟨v, hv, hb, hg⟩ := (location_rw_every_day_valid c fam orc drw L S hS doyO doyH doyF yearsO yearsH yearsF obs H F out hord hd hs
+    hodd hh hlen hr hwet hfam hexpit h).2 i hi
+  exact ⟨v, hv, zero_or_ge_of_valid c t v hlb hlt hb hg⟩
+
+/-! ### CDFt (SSR) and QDM through the running windows: censoring is applied to the mapped output of every window and
+    the thresholds of the windows dominate the threshold of the whole series -/
+
+/-- CDFt with SSR on sub-samples (a running window, a year window, both): exact zeros or values at least the smallest
+    positive value of the **whole** input series -/
+theorem cdft_ssr_subsample_zero_or_ge (E Q : List Rat → Rat → Rat) (d : DeltaShift) (obs H F ow Hw Fw u : List Rat)
+    (ho : ∀ v ∈ ow, v ∈ obs) (hh : ∀ v ∈ Hw, v ∈ H) (hf : ∀ v ∈ Fw, v ∈ F)
+    (hpos : ∃ x, (x ∈ ow ∨ x ∈ Hw ∨ x ∈ Fw) ∧ 0 < x) :
+    ∀ v ∈ cdftStepsG true E Q d ow Hw Fw u, v = 0 ∨ ssrThreshold obs H F ≤ v := by
+  intro v hv
+  rcases cdft_ssr_zero_or_ge E Q d ow Hw Fw u v hv with h | h
+  · exact Or.inl h
+  · exact Or.inr (le_trans (ssrThreshold_subsample obs H F ow Hw Fw ho hh hf hpos) h)
+
+/-- `CDFt.apply_location` with running windows over days of year (year windows off): every written value is `0` or at
+    least the smallest positive input value, provided every window holds a positive value -/
+theorem cdft_ssr_location_rw_zero_or_ge (d : DeltaShift) (em : EcdfMethod) (im : IecdfMethod) (draws : List Nat → List Rat)
+    (L S : Int) (dO dH dF : List Int) (obs H F : List Rat) (out : List (Option Rat))
+    (hpos : ∀ c ∈ Model.Windows.useCenters S dF, ∃ x, (x ∈ Model.Skeleton.take obs (Model.Windows.idxWindow L dO c) ∨
+      x ∈ Model.Skeleton.take H (Model.Windows.idxWindow L dH c) ∨ x ∈ Model.Skeleton.take F (Model.Windows.idxWindow L dF c)) ∧ 0 < x)
+    (h : Model.Skeleton.applyLocationRW (fun o h x _ _ ix => .ok (cdftSteps true d em im o h x (draws ix))) L S dO dH dF obs H F
+      = .ok out) : ∀ v, some v ∈ out → v = 0 ∨ ssrThreshold obs H F ≤ v := by
+  refine applyLocationRW_forall (fun v => v = 0 ∨ ssrThreshold obs H F ≤ v) _ L S dO dH dF obs H F out ?_ h
+  intro c hc r hr v hv
+  injection hr with hr
+  subst hr
+  exact cdft_ssr_subsample_zero_or_ge _ _ d obs H F _ _ _ _ (fun w hw => take_mem _ _ hw) (fun w hw => take_mem _ _ hw)
+    (fun w hw => take_mem _ _ hw) (hpos c hc) v hv
+
+/-- … with the year windows of `cm_future` inside every running window (the default of `CDFt.from_variable("pr")`) -/
+theorem cdft_ssr_location_rw_years_zero_or_ge (d : DeltaShift) (em : EcdfMethod) (im : IecdfMethod)
+    (draws : List Nat → Int → List Rat) (L S Ly Sy : Int) (dO dH dF yearsF : List Int) (obs H F : List Rat)
+    (out : List (Option Rat))
+    (hpos : ∀ c ∈ Model.Windows.useCenters S dF, ∃ x, (x ∈ Model.Skeleton.take obs (Model.Windows.idxWindow L dO c) ∨
+      x ∈ Model.Skeleton.take H (Model.Windows.idxWindow L dH c)) ∧ 0 < x)
+    (h : Model.Skeleton.applyLocationRW (fun o h x _ _ ix =>
+        (cdftWindowYearsSSR d em im Ly Sy (Model.Skeleton.take yearsF ix) o h x (draws ix)).bind assignedAll) L S dO dH dF obs H F
+      = .ok out) : ∀ v, some v ∈ out → v = 0 ∨ ssrThreshold obs H F ≤ v := by
+  refine applyLocationRW_forall (fun v => v = 0 ∨ ssrThreshold obs H F ≤ v) _ L S dO dH dF obs H F out ?_ h
+  intro c hc r hr v hv
+  cases hy : cdftWindowYearsSSR d em im Ly Sy (Model.Skeleton.take yearsF (Model.Windows.idxWindow L dF c))
+      (Model.Skeleton.take obs (Model.Windows.idxWindow L dO c)) (Model.Skeleton.take H (Model.Windows.idxWindow L dH c))
+      (Model.Skeleton.take F (Model.Windows.idxWindow L dF c)) (draws (Model.Windows.idxWindow L dF c)) with
+  | error e => rw [hy] at hr; exact absurd hr (by simp [Except.bind])
+  | ok buf =>
+    rw [hy] at hr
+    have hmem := assignedAll_mem buf r hr v hv
+    obtain ⟨x, hx, hx0⟩ := hpos c hc
+    have hx' : ∃ x, (x ∈ Model.Skeleton.take obs (Model.Windows.idxWindow L dO c) ∨
+        x ∈ Model.Skeleton.take H (Model.Windows.idxWindow L dH c)) ∧ 0 < x := ⟨x, hx, hx0⟩
+    rcases cdft_ssr_years_zero_or_ge d em im Ly Sy _ _ _ _ _ buf hx' hy v hmem with h0 | h0
+    · exact Or.inl h0
+    · refine Or.inr (le_trans (ssrThreshold_subsample obs H F _ _ _ (fun w hw => take_mem _ _ hw) (fun w hw => take_mem _ _ hw)
+        (fun w hw => take_mem _ _ hw) ⟨x, ?_, hx0⟩) h0)
+      rcases hx with hx | hx
+      · exact Or.inl hx
+      · exact Or.inr (Or.inl hx)
+
+/-- `QuantileDeltaMapping.apply_location` with running windows: the censoring acts on the mapped output of every window,
+    so every written value is `0` or at least the censoring threshold — with the year windows of `cm_future` … -/
+theorem qdm_location_rw_years_zero_or_ge {P} (Fam : Family P) (tp : TrendPres) (em : EcdfMethod) (t thr : Rat)
+    (L S Ly Sy : Int) (dO dH dF yearsF : List Int) (obs H F : List Rat) (out : List (Option Rat))
+    (h : Model.Skeleton.applyLocationRW (fun o h x _ _ ix =>
+        (qdmWindowYears Fam tp em t (some thr) Ly Sy (Model.Skeleton.take yearsF ix) o h x).bind assignedAll) L S dO dH dF obs H F
+      = .ok out) : ∀ v, some v ∈ out → v = 0 ∨ thr ≤ v := by
+  refine applyLocationRW_forall (fun v => v = 0 ∨ thr ≤ v) _ L S dO dH dF obs H F out ?_ h
+  intro c _ r hr v hv
+  cases hy : qdmWindowYears Fam tp em t (some thr) Ly Sy (Model.Skeleton.take yearsF (Model.Windows.idxWindow L dF c))
+      (Model.Skeleton.take obs (Model.Windows.idxWindow L dO c)) (Model.Skeleton.take H (Model.Windows.idxWindow L dH c))
+      (Model.Skeleton.take F (Model.Windows.idxWindow L dF c)) with
+  | error e => rw [hy] at hr; exact absurd hr (by simp [Except.bind])
+  | ok buf =>
+    rw [hy] at hr
+    exact qdm_years_zero_or_ge Fam tp em t thr Ly Sy _ _ _ _ buf hy v (assignedAll_mem buf r hr v hv)
+
+/-- … and without them -/
+theorem qdm_location_rw_zero_or_ge {P} (Fam : Family P) (tp : TrendPres) (em : EcdfMethod) (t thr : Rat)
+    (L S : Int) (dO dH dF : List Int) (obs H F : List Rat) (out : List (Option Rat))
+    (h : Model.Skeleton.applyLocationRW (fun o h x _ _ _ => .ok (qdmWindow Fam tp em t (some thr) o h x)) L S dO dH dF obs H F
+      = .ok out) : ∀ v, some v ∈ out → v = 0 ∨ thr ≤ v := by
+  refine applyLocationRW_forall (fun v => v = 0 ∨ thr ≤ v) _ L S dO dH dF obs H F out ?_ h
+  intro c _ r hr v hv
+  injection hr with hr
+  subst hr
+  exact qdm_zero_or_ge Fam tp _ t thr _ _ _ v hv
+
+end Round4
 
 end Props.C10
